@@ -396,7 +396,7 @@ CL1: c_t := cur;                                                  \* LoadPointer
 CL2: return;
 end procedure;
 
-process thr \in Threads
+fair process thr \in Threads
 variables ci = 0;
 begin
 Loop: while pcnt[self] < Len(Menu[self]) do
@@ -1838,7 +1838,14 @@ Next == (\E self \in ProcSet:  \/ waitForResize(self) \/ resize(self)
            \/ (\E self \in Threads: thr(self))
            \/ Terminating
 
-Spec == Init /\ [][Next]_vars
+Spec == /\ Init /\ [][Next]_vars
+        /\ \A self \in Threads : /\ WF_vars(thr(self))
+                                 /\ WF_vars(load(self))
+                                 /\ WF_vars(clearMap(self))
+                                 /\ WF_vars(rangeAll(self))
+                                 /\ WF_vars(doCompute(self))
+                                 /\ WF_vars(waitForResize(self))
+                                 /\ WF_vars(resize(self))
 
 Termination == <>(\A self \in ProcSet: pc[self] = "Done")
 
